@@ -1,6 +1,6 @@
 #!/bin/bash
 # regenerate _CoqProject (file list) and the Makefile when the set of .v files changes
-cd /verif/coq
+cd ${VERIF_ROOT:-/verif}/coq
 {
   echo "-Q . FitV"
   echo "-arg -w -arg -notation-overridden,-deprecated-hint-without-locality,-deprecated-instance-without-locality"
